@@ -31,7 +31,7 @@ let check (fields : sexp list) : verdict * string option =
   let final = atom (field1 "final" o) in
   let panicked = atom (field1 "panic" o) = "1" and hang = atom (field1 "hang" o) = "1" in
   let (mrows, mfin) = decode_all (eff_limit limit) oids ending chunks in
-  let mfinal = (match mfin with REnd -> "eof" | _ -> "err") in
+  let mfinal = (match mfin with CEnd -> "eof" | _ -> "err") in
   let impl_s = String.concat " " (List.map show_row rows) ^ " => " ^ final in
   let model_s = String.concat " " (List.map show_row mrows) ^ " => " ^ mfinal in
   let id = !cur_id in
@@ -47,8 +47,20 @@ let check (fields : sexp list) : verdict * string option =
   else if hang then (OracleFail "the connection did not end", None)
   else if not expect_ok then (OracleFail ("the rows returned differ from the rows the client encoded: " ^ impl_s), None)
   else if not same_as_first then (OracleFail ("another split of the same stream into CopyData messages gives a different result: " ^ impl_s ^ "  vs  " ^ (Hashtbl.find first_of_group group)), None)
-  else if impl_s <> model_s then (Diff (Printf.sprintf "impl:  %s\n    model: %s" impl_s model_s), None)
-  else (Ok_, None)
+  else
+  let cq_dval = function
+    | DNull -> "DNull" | DInt z -> "(DInt " ^ cq_z z ^ ")" | DBool b -> "(DBool " ^ cq_bool b ^ ")"
+    | DBytes b -> "(DBytes " ^ cq_bytes b ^ ")" in
+  let cross =
+    if List.length (List.concat chunks) > 300 then None else
+    Some (Printf.sprintf "(%s, %s, %s, %s, (%s, %s))" (cq_z limit) (cq_list cq_z oids)
+            (match ending with EDone -> "EDone" | EAbort -> "EAbort") (cq_list cq_bytes chunks)
+            (cq_list (cq_list cq_dval) mrows) (match mfin with CEnd -> "CEnd" | CFail -> "CFail" | CRow _ -> "CFail")) in
+  if impl_s <> model_s then (Diff (Printf.sprintf "impl:  %s\n    model: %s" impl_s model_s), cross)
+  else (Ok_, cross)
+
+let cross_header = "Require Import Wire.Bytes Wire.Framing Wire.Transport Wire.Copy.\nFrom Coq Require Import String.\nLocal Open Scope string_scope.\nLocal Open Scope list_scope.\nLocal Open Scope Z_scope.\nDefinition cases : list (Z * list Z * ending * list bytes * (list (list dval) * rowres)) := [\n"
+let cross_footer = "].\nDefinition dval_eqb (a b : dval) : bool := match a, b with DNull, DNull => true | DInt x, DInt y => x =? y | DBool x, DBool y => Bool.eqb x y | DBytes x, DBytes y => bytes_eqb x y | _, _ => false end.\nFixpoint leqb {A} (e : A -> A -> bool) (a b : list A) : bool := match a, b with [], [] => true | x :: a', y :: b' => e x y && leqb e a' b' | _, _ => false end.\nDefinition res_eqb (a b : list (list dval) * rowres) : bool := leqb (leqb dval_eqb) (fst a) (fst b) && match snd a, snd b with CEnd, CEnd => true | CFail, CFail => true | _, _ => false end.\nDefinition bad := Eval vm_compute in\n  map (fun c => fst (fst (fst (fst c)))) (filter (fun c => match c with (L, oids, e, chunks, expected) => negb (res_eqb (decode_all (eff_limit L) oids e chunks) expected) end) cases).\nPrint bad.\n"
 
 let nontrivial (fields : sexp list) : string option =
   match field "chunks" fields with
